@@ -63,6 +63,9 @@ pub trait Layer: Sized {
         let _ = (raw, off);
         Self::H
     }
+    /// snap() index of the property that determines the header length (IPv4 ihl, TCP dataoff);
+    /// MAXF when the header has a fixed size. Assigning it may make a short buffer un-parsable.
+    const LEN_FIELD: usize = MAXF;
     fn leak(self) {
         std::mem::forget(self)
     }
@@ -139,6 +142,7 @@ impl Layer for Ipv4Packet {
     const NAME: &'static str = "ipv4";
     const H: usize = 20;
     const N: usize = 12;
+    const LEN_FIELD: usize = 1;
     fn parse(raw: Rc<Vec<u8>>, off: usize) -> Result<Self, PacketError> {
         Ipv4Packet::from_bytes(raw, off)
     }
@@ -283,6 +287,7 @@ impl Layer for Tcp {
     const NAME: &'static str = "tcp";
     const H: usize = 20;
     const N: usize = 9;
+    const LEN_FIELD: usize = 4;
     fn parse(raw: Rc<Vec<u8>>, off: usize) -> Result<Self, PacketError> {
         Tcp::from_bytes(raw, off)
     }
@@ -324,7 +329,18 @@ impl Layer for Tcp {
         if d >= 5 {
             Some(off + 4 * d)
         } else {
+            // data offset < 5 is not a valid header; RFC 9293 gives no payload position for it
             None
+        }
+    }
+    fn ref_need(raw: &[u8], off: usize) -> usize {
+        // header incl. options as announced by the data offset (only readable when the fixed
+        // header is there; callers check L >= off + H first)
+        let d = (raw[off + 12] >> 4) as usize;
+        if d >= 5 {
+            4 * d
+        } else {
+            20
         }
     }
 }
@@ -335,6 +351,10 @@ impl<const W: u32> Layer for TcpW<W> {
     const NAME: &'static str = "tcp";
     const H: usize = 20;
     const N: usize = 9;
+    const LEN_FIELD: usize = 4;
+    fn ref_need(raw: &[u8], off: usize) -> usize {
+        Tcp::ref_need(raw, off)
+    }
     fn parse(raw: Rc<Vec<u8>>, off: usize) -> Result<Self, PacketError> {
         Tcp::from_bytes(raw, off).map(TcpW)
     }
@@ -403,6 +423,7 @@ pub fn dec<X: Layer, const L: usize>(off: usize, pin0: i32) {
             vcover!(true, "parse err");
             // truncated: shorter than the fixed header, or shorter than the header length the
             // packet itself announces (IPv4 IHL).
+            // (ref_need reads the length field, which exists only if the fixed header does)
             assert!(
                 L < off + X::H || L < off + X::ref_need(&raw, off),
                 "VERIF: parse rejected a buffer that holds a complete header"
@@ -552,8 +573,8 @@ pub fn set<X: Layer, const L: usize>(
                 }
                 Err(e) => {
                     // only legitimate when the assigned value itself lengthens the header beyond
-                    // the buffer (IPv4 IHL); every other layer must re-parse
-                    assert!(X::NAME == "ipv4" && f.k == 1, "VERIF: packet does not re-parse after assignment");
+                    // the buffer (IPv4 IHL, TCP data offset); everything else must re-parse
+                    assert!(f.k == X::LEN_FIELD && 4 * (want as usize) > L - off, "VERIF: packet does not re-parse after assignment");
                     std::mem::forget(e);
                 }
             }
